@@ -25,7 +25,7 @@ def closeMarker : Str := ['<', '/', 's', 'c', 'r', 'i', 'p', 't', '>']
 def serBody (ind : Option Nat) (d : SDep) : Str := neutralise (jsonPrint ind (depToJson d))
 
 /-- `dep.serialize_to_script_json(indent).get_html_string()` -/
-def serialize (ind : Option Nat) (d : SDep) : Str := openMarker ++ serBody ind d ++ closeMarker
+def tdSerialize (ind : Option Nat) (d : SDep) : Str := openMarker ++ serBody ind d ++ closeMarker
 
 /-- `Tag("script", text, type="application/json", data_html_dependency=True)` -/
 def serNode (ind : Option Nat) (d : SDep) : Node :=
@@ -41,7 +41,7 @@ def sdepOfNode (cfg : Cfg) (d : DepInfo) (hasHead : Bool) (head : Nodes) : SDep 
 /-- `t₀ ++ ser d₁ ++ t₁ ++ … ++ ser dₙ ++ tₙ`: serialised copies (indent, dependency) interleaved with text -/
 def interleave (t0 : Str) : List (Option Nat × SDep × Str) → Str
   | [] => t0
-  | (i, d, t) :: r => t0 ++ serialize i d ++ interleave t r
+  | (i, d, t) :: r => t0 ++ tdSerialize i d ++ interleave t r
 
 /-! ### scanning -/
 
@@ -73,7 +73,7 @@ def dedupGo (seen : List Str) : List Str → List Str
   | [] => []
   | b :: r => if seen.contains b then dedupGo seen r else b :: dedupGo (b :: seen) r
 
-def dedupKeepFirst (bs : List Str) : List Str := dedupGo [] bs
+def tdDedupKeepFirst (bs : List Str) : List Str := dedupGo [] bs
 
 /-- `HTMLDependency(**json.loads(dep_str))` (JSONDecodeError is a ValueError) -/
 def recover (body : Str) : Except Err SDep :=
@@ -94,7 +94,7 @@ def recoverAll : List Str → Except Err (List SDep)
 /-- `_static_extract_serialized_html_deps(html)` -/
 def extract (html : Str) : Except Err (Str × List SDep) :=
   let r := scan html.length html
-  match recoverAll (dedupKeepFirst r.2) with
+  match recoverAll (tdDedupKeepFirst r.2) with
   | .ok ds => .ok (r.1, ds)
   | .error e => .error e
 
@@ -146,6 +146,6 @@ def textDocRender (cfg : Cfg) (asTags : SDep → Nodes) (html : Str) (deps : Lis
 
 /-- `_render_tag_or_taglist` in "json" mode, given the invisible-mode rendering and the resolved dependencies -/
 def jsonModeStr (html : Str) (ds : List SDep) : Str :=
-  html ++ joinStr ['\n'] (ds.map (serialize none))
+  html ++ joinStr ['\n'] (ds.map (tdSerialize none))
 
 end HtmlVerif
